@@ -120,12 +120,20 @@ class _FakeWriter(io.BytesIO):
 class FakeFS:
     def __init__(self):
         self.files = {}
+        self.prefixes = ["snap"]
         self.fail_next_write_after = None
         self.n_write_faults = 0
         self.n_opens = 0
 
+    def owns(self, path):
+        """Paths this file system is responsible for: everything derived from a snapshot name it has seen."""
+        return any(path.startswith(pfx) for pfx in self.prefixes)
+
     def open(self, path, mode="r", *a, **k):
         self.n_opens += 1
+        base = str(path).split(".")[0]
+        if base and base not in self.prefixes:
+            self.prefixes.append(base)
         if "w" in mode:
             fa = self.fail_next_write_after
             self.fail_next_write_after = None
@@ -736,6 +744,46 @@ class World:
         np.random.seed = seed
         self._had_open = "open" in _pyhms_tree.__dict__
         _pyhms_tree.open = self.fs.open
+        # os-level operations on snapshot files go to the fake file system too (everything else stays real)
+        fs = self.fs
+        real = {n: getattr(os, n) for n in ("replace", "rename", "remove", "unlink")}
+        real_p = {n: getattr(os.path, n) for n in ("exists", "isfile", "getsize")}
+
+        def _is_fake(pth):
+            return isinstance(pth, str) and (pth in fs.files or fs.owns(pth))
+
+        def mk_move(name):
+            def move(src, dst, *a, **k):
+                if _is_fake(src) or _is_fake(dst):
+                    if src not in fs.files:
+                        raise FileNotFoundError(src)
+                    fs.files[dst] = fs.files.pop(src)
+                    return None
+                return real[name](src, dst, *a, **k)
+            return move
+
+        def mk_del(name):
+            def rm(pth, *a, **k):
+                if _is_fake(pth):
+                    if pth not in fs.files:
+                        raise FileNotFoundError(pth)
+                    del fs.files[pth]
+                    return None
+                return real[name](pth, *a, **k)
+            return rm
+
+        for n in ("replace", "rename"):
+            self._patched.append((os, n, real[n]))
+            setattr(os, n, mk_move(n))
+        for n in ("remove", "unlink"):
+            self._patched.append((os, n, real[n]))
+            setattr(os, n, mk_del(n))
+        self._patched.append((os.path, "exists", real_p["exists"]))
+        os.path.exists = lambda pth: (pth in fs.files) if _is_fake(pth) else real_p["exists"](pth)
+        self._patched.append((os.path, "isfile", real_p["isfile"]))
+        os.path.isfile = lambda pth: (pth in fs.files) if _is_fake(pth) else real_p["isfile"](pth)
+        self._patched.append((os.path, "getsize", real_p["getsize"]))
+        os.path.getsize = lambda pth: len(fs.files[pth]) if (_is_fake(pth) and pth in fs.files) else real_p["getsize"](pth)
         self._patched.append((_pyhms_hms, "DemeTree", _pyhms_hms.DemeTree))
         _pyhms_hms.DemeTree = SimDemeTree
         _CURRENT[0] = self.key
